@@ -21,7 +21,7 @@ use yash_env::system::GetPid as _;
 use yv_harness::cli::Args;
 use yv_harness::out::CasesWriter;
 use yv_harness::rng::Rng;
-use yv_harness::vsh::{self, BuiltinFuture, RunOpts, VEnv};
+use yv_harness::vsh::{self, BuiltinFuture, VEnv};
 use yv_harness::{coq, json_str};
 
 // ---------------------------------------------------------------------------
@@ -36,9 +36,14 @@ pub enum Name {
     Return,
     Exit,
     Set,
+    /// `exec` without operands
+    Exec,
+    /// `.` applied to a file that does not exist
+    Dot,
     Probe,
     True,
     False,
+    Wait,
     User(u32),
 }
 
@@ -51,9 +56,12 @@ impl Name {
             Name::Return => "return".into(),
             Name::Exit => "exit".into(),
             Name::Set => "set".into(),
+            Name::Exec => "exec".into(),
+            Name::Dot => ".".into(),
             Name::Probe => "probe".into(),
             Name::True => "true".into(),
             Name::False => "false".into(),
+            Name::Wait => "wait".into(),
             Name::User(i) => format!("f{i}"),
         }
     }
@@ -65,9 +73,12 @@ impl Name {
             Name::Return => "NReturn".into(),
             Name::Exit => "NExit".into(),
             Name::Set => "NSet".into(),
+            Name::Exec => "NExec".into(),
+            Name::Dot => "NDot".into(),
             Name::Probe => "NProbe".into(),
             Name::True => "NTrue".into(),
             Name::False => "NFalse".into(),
+            Name::Wait => "NWait".into(),
             Name::User(i) => format!("(NUser {})", coq::n(i as u64)),
         }
     }
@@ -122,6 +133,12 @@ pub struct Deco {
 pub enum Cmd {
     Assign(u32, Word),
     Readonly(u32),
+    /// `x=$(list)`
+    AssignSub(u32, List),
+    /// `: $(list)`
+    SubstArg(List),
+    /// `{ andor & }`
+    Async(Box<AndOr>),
     Call(Deco, Name, Vec<u64>),
     Brace(List),
     Subshell(List),
@@ -207,6 +224,9 @@ pub fn coq_cmd(c: &Cmd) -> String {
     match c {
         Cmd::Assign(x, w) => format!("(CAssign {} {})", coq::n(*x as u64), w.coq()),
         Cmd::Readonly(x) => format!("(CReadonly {})", coq::n(*x as u64)),
+        Cmd::AssignSub(x, l) => format!("(CAssignSub {} {})", coq::n(*x as u64), coq_clist(l)),
+        Cmd::SubstArg(l) => format!("(CSubstArg {})", coq_clist(l)),
+        Cmd::Async(a) => format!("(CAsync {})", coq_andor(a)),
         Cmd::Call(d, nm, args) => format!(
             "(CCall (mkDeco {} {}) {} {})",
             coq::b(d.bad_redir),
@@ -400,6 +420,25 @@ impl Render<'_> {
                 let w = vec!["readonly".to_string(), format!("v{x}")];
                 self.words(&w)
             }
+            Cmd::AssignSub(x, l) => {
+                let a = self.osp();
+                let body = self.list(l);
+                let b = if self.ch(1, 4) { "\n".to_string() } else { self.osp() };
+                format!("v{x}=$({a}{body}{b})")
+            }
+            Cmd::Async(a) => {
+                let lb = self.lb();
+                let body = self.andor(a);
+                let sp = self.osp();
+                let end = if self.ch(1, 4) { "\n".to_string() } else { self.sp() };
+                format!("{{{lb}{body}{sp}&{end}}}")
+            }
+            Cmd::SubstArg(l) => {
+                let a = self.osp();
+                let body = self.list(l);
+                let b = self.osp();
+                format!(":{}$({a}{body}{b})", self.sp())
+            }
             Cmd::Call(d, nm, args) => {
                 let mut w = vec![];
                 if d.via_command {
@@ -413,13 +452,20 @@ impl Render<'_> {
                         2 => "+m".into(),
                         _ => "-m".into(),
                     });
+                } else if *nm == Name::Dot {
+                    w.push("/nonexistent/script".into());
+                } else if *nm == Name::Wait {
+                    if !args.is_empty() {
+                        w.push("$!".into());
+                    }
                 } else {
                     for a in args {
                         w.push(a.to_string());
                     }
                 }
                 if d.bad_redir {
-                    let r = "</nonexistent/file".to_string();
+                    // `exec 3<missing`: a redirection that would be kept
+                    let r = if *nm == Name::Exec { "3</nonexistent/file".to_string() } else { "</nonexistent/file".to_string() };
                     if self.ch(1, 3) && !d.via_command {
                         w.insert(0, r);
                     } else {
@@ -680,14 +726,91 @@ fn canonicalise(items: &[Item], ppid: &BTreeMap<i32, i32>, main: i32) -> Vec<(u6
     out
 }
 
+/// `vsh::run_shell` for `-c SCRIPT`, except that after the shell has finished the
+/// simulation goes on until every process (asynchronous lists that nobody waited
+/// for) has ended, so that all probes of the script are in the record.
+fn run_shell_drain(script: &str) -> (vsh::Outcome, Option<vsh::State>) {
+    use std::cell::RefCell as Rc2;
+    use std::ops::ControlFlow::{Break, Continue};
+    use std::panic::{AssertUnwindSafe, catch_unwind};
+    use yash_cli::startup::args::{Parse, parse as parse_args};
+    use yash_cli::startup::configure_environment;
+    use yash_cli::startup::input::prepare_input;
+    use yash_env::semantics::Divert;
+    let script = script.to_string();
+    vsh::trace_take();
+    let r = catch_unwind(AssertUnwindSafe(move || {
+        vsh::drive(
+            move |mut env, state| async move {
+                let argv = vec!["yash".to_string(), "-c".to_string(), script];
+                let run = match parse_args(argv) {
+                    Ok(Parse::Run(run)) => run,
+                    _ => return 2,
+                };
+                let work = configure_environment(&mut env, run).await;
+                vsh::install_probes(&mut env);
+                env.builtins.insert("probe", Builtin::new(Type::Mandatory, probe_main));
+                let ref_env = Rc2::new(&mut env);
+                let lexer = match prepare_input(&ref_env, &work.source).await {
+                    Ok(lexer) => lexer,
+                    Err(_) => return 127,
+                };
+                let result = yash_semantics::read_eval_loop(&ref_env, &mut { lexer }).await;
+                let env = ref_env.into_inner();
+                env.apply_result(result);
+                match result {
+                    Continue(())
+                    | Break(Divert::Continue { .. })
+                    | Break(Divert::Break { .. })
+                    | Break(Divert::Return(_))
+                    | Break(Divert::Interrupt(_))
+                    | Break(Divert::Exit(_)) => yash_semantics::trap::run_exit_trap(env).await,
+                    Break(Divert::Abort(_)) => (),
+                }
+                let status = env.exit_status.0;
+                // let the orphans finish
+                let me = env.main_pid;
+                if state.borrow().now.is_none() {
+                    state.borrow_mut().now = Some(std::time::Instant::now());
+                }
+                for _ in 0..100_000 {
+                    let alive = state.borrow().processes.iter().any(|(p, pr)| *p != me && pr.state().is_alive());
+                    if !alive {
+                        break;
+                    }
+                    // virtual time: the simulation advances the clock when nothing else can run
+                    {
+                        use yash_env::system::concurrency::Sleep as _;
+                        env.system.sleep(std::time::Duration::from_millis(1)).await;
+                    }
+                }
+                status
+            },
+            100_000,
+        )
+    }));
+    let trace = vsh::trace_take();
+    match r {
+        Ok((res, deadlock, timeout, state)) => (
+            vsh::Outcome { status: res.unwrap_or(-1), trace, deadlock, timeout, ..Default::default() },
+            Some(state),
+        ),
+        Err(e) => {
+            let msg = if let Some(s) = e.downcast_ref::<&str>() {
+                s.to_string()
+            } else if let Some(s) = e.downcast_ref::<String>() {
+                s.clone()
+            } else {
+                "panic".to_string()
+            };
+            (vsh::Outcome { trace, panicked: Some(msg), status: -2, ..Default::default() }, None)
+        }
+    }
+}
+
 pub fn run_text(script: &str) -> ImplOut {
     ITEMS.with(|t| t.borrow_mut().clear());
-    let (o, state) = vsh::run_shell(
-        RunOpts { argv: vec!["-c".into(), script.into()], ..Default::default() },
-        |env, _| {
-            env.builtins.insert("probe", Builtin::new(Type::Mandatory, probe_main));
-        },
-    );
+    let (o, state) = run_shell_drain(script);
     let items = ITEMS.with(|t| std::mem::take(&mut *t.borrow_mut()));
     if let Some(m) = o.panicked {
         return ImplOut::Crash(format!("panic: {m}"));
@@ -772,7 +895,8 @@ impl Gen<'_> {
                 probe(k, st)
             }
             45..=49 => call(if self.rng.chance(1, 2) { Name::True } else { Name::False }, &[]),
-            50..=52 => call(Name::Colon, &[]),
+            50..=51 => call(Name::Colon, &[]),
+            52 => if self.rng.chance(1, 2) { call(Name::Wait, &[]) } else { call(Name::Wait, &[1]) },
             53..=60 => Cmd::Assign(self.rng.below(NVARS as usize) as u32, self.word(cx)),
             61..=72 => {
                 // break / continue
@@ -829,13 +953,13 @@ impl Gen<'_> {
         match self.rng.below(16) {
             0..=4 => call(Name::Set, &[*self.rng.pick(&[1, 1, 1, 1, 0, 0, 3, 3, 2])]),
             5 => Cmd::Call(bad, Name::Probe, vec![self.key()]),
-            6 => Cmd::Call(bad, *self.rng.pick(&[Name::Colon, Name::Break, Name::Exit, Name::Set]), vec![]),
+            6 => Cmd::Call(bad, *self.rng.pick(&[Name::Colon, Name::Break, Name::Exit, Name::Set, Name::Exec, Name::Exec]), vec![]),
             7 => Cmd::Call(bad, Name::User(if cx.rank > 0 { self.rng.below(cx.rank as usize) as u32 } else { 9 }), vec![]),
             8 => Cmd::Call(via, Name::Probe, vec![self.key(), self.status()]),
             9 => Cmd::Call(via, *self.rng.pick(&[Name::Break, Name::Continue]), vec![0]),
             10 => Cmd::Call(via, Name::User(9), vec![]),
             11 => call(*self.rng.pick(&[Name::Break, Name::Continue]), &[0]),
-            12 => call(Name::Exit, &[1, 2]),
+            12 => if self.rng.chance(1, 2) { call(Name::Exit, &[1, 2]) } else { call(Name::Dot, &[]) },
             13 => Cmd::RedirFail(Box::new(Cmd::Brace(vec![simple(probe(self.key(), 0))]))),
             14 => Cmd::Call(Deco { bad_redir: true, via_command: true }, Name::Probe, vec![self.key()]),
             _ => call(Name::User(9), &[]),
@@ -867,7 +991,18 @@ impl Gen<'_> {
         let inner = Ctx { nest: cx.nest - 1, ..*cx };
         match self.rng.below(100) {
             0..=11 => Cmd::Brace(self.list(&inner, 1, 3)),
-            12..=21 => Cmd::Subshell(self.list(&Ctx { depth: 0, allow_exit: true, ..inner }, 1, 3)),
+            12..=21 => {
+                let body = self.list(&Ctx { depth: 0, allow_exit: true, ..inner }, 1, 3);
+                match self.rng.below(7) {
+                    0 => Cmd::AssignSub(self.rng.below(NVARS as usize) as u32, body),
+                    1 => Cmd::SubstArg(body),
+                    2 | 3 => {
+                        let a = self.andor(&Ctx { depth: 0, allow_exit: true, ..inner });
+                        Cmd::Async(Box::new(a))
+                    }
+                    _ => Cmd::Subshell(body),
+                }
+            }
             22..=39 => {
                 let c = self.list(&inner, 1, 2);
                 let b = self.list(&inner, 1, 2);
@@ -1031,7 +1166,12 @@ fn scrub_builtin_overrides(c: &mut Cmd, inside_override: bool) {
             *nm = Name::Probe;
             *args = vec![7000];
         }
-        Cmd::Brace(l) | Cmd::Subshell(l) | Cmd::TrapExit(l) => list(l, inside_override),
+        Cmd::Brace(l) | Cmd::Subshell(l) | Cmd::TrapExit(l) | Cmd::AssignSub(_, l) | Cmd::SubstArg(l) => list(l, inside_override),
+        Cmd::Async(a) => {
+            let mut l = vec![(**a).clone()];
+            list(&mut l, inside_override);
+            **a = l.pop().unwrap();
+        }
         Cmd::If(c1, b, elifs, els) => {
             list(c1, inside_override);
             list(b, inside_override);
@@ -1152,6 +1292,14 @@ pub fn count_constructs(p: &Prog, w: &mut CasesWriter) {
                 w.count("construct:subshell");
                 list(l, w)
             }
+            Cmd::AssignSub(_, l) | Cmd::SubstArg(l) => {
+                w.count("construct:command substitution");
+                list(l, w)
+            }
+            Cmd::Async(a) => {
+                w.count("construct:asynchronous list");
+                list(&vec![(**a).clone()], w)
+            }
             Cmd::If(c1, b, elifs, els) => {
                 w.count("construct:if");
                 list(c1, w);
@@ -1201,6 +1349,11 @@ pub fn count_constructs(p: &Prog, w: &mut CasesWriter) {
     }
 }
 
+/// Scripts with asynchronous lists: their probes are not ordered relative to the parent's.
+pub fn has_async(p: &Prog) -> bool {
+    coq_prog(p).contains("(CAsync ")
+}
+
 pub fn emit(w: &mut CasesWriter, p: &Prog, text: &str, stream: &str, tags: &[&str]) {
     if std::env::var("YV_DEBUG").is_ok() {
         eprintln!("=== case {}\n{}", w.len(), text);
@@ -1216,7 +1369,8 @@ pub fn emit(w: &mut CasesWriter, p: &Prog, text: &str, stream: &str, tags: &[&st
             _ => ">10",
         }));
     }
-    let term = format!("({}, {})", coq_prog(p), out.coq());
+    let unordered = has_async(p);
+    let term = format!("({}, {}, {})", coq_prog(p), coq::b(unordered), out.coq());
     let json = format!(
         "{{\"stream\":{},\"script\":{},\"observed\":{}}}",
         json_str(stream),
@@ -1389,6 +1543,38 @@ pub fn corpus() -> Vec<Prog> {
         ))),
         Line::Cmd(seq(vec![call(Name::User(0), &[]), probe(6, 0)])),
     ]);
+    // command substitution: a subshell; its status is the status of an assignment-only
+    // command and is ignored otherwise; return/break/exit inside end only the substitution
+    v.push(vec![
+        Line::Cmd(l1(Cmd::FunDef(
+            Name::User(0),
+            Box::new(Cmd::Brace(seq(vec![
+                Cmd::AssignSub(0, seq(vec![probe(1, 0), call(Name::Return, &[5]), probe(2, 0)])),
+                probe(3, 0),
+                Cmd::SubstArg(seq(vec![probe(4, 6), call(Name::Exit, &[])])),
+                probe(5, 0),
+            ]))),
+        ))),
+        Line::Cmd(l1(Cmd::For(
+            1,
+            vec![Word::Lit(0), Word::Lit(1)],
+            seq(vec![call(Name::User(0), &[]), Cmd::AssignSub(1, seq(vec![probe(6, 0), call(Name::Break, &[])])), probe(7, 0)]),
+        ))),
+        Line::Cmd(l1(Cmd::Case(Word::Var(0), vec![(vec![Pat::Star], l1(probe(8, 0)), Cont::Break)]))),
+    ]);
+    // asynchronous lists: `$?` is 0 after `&`, errexit does not apply to the list,
+    // `wait $!` gives the status of the body once, then 127; `wait` gives 0
+    v.push(vec![
+        Line::Cmd(l1(call(Name::Set, &[1]))),
+        Line::Cmd(seq(vec![
+            Cmd::Async(Box::new(simple(probe(1, 3)))),
+            probe(2, 0),
+        ])),
+        Line::Cmd(vec![AndOr { first: Pipeline { neg: false, cmds: vec![call(Name::Wait, &[1])] }, rest: vec![(false, Pipeline { neg: false, cmds: vec![probe(3, 0)] })] }]),
+        Line::Cmd(vec![AndOr { first: Pipeline { neg: false, cmds: vec![call(Name::Wait, &[1])] }, rest: vec![(false, Pipeline { neg: false, cmds: vec![probe(4, 0)] })] }]),
+        Line::Cmd(seq(vec![Cmd::Async(Box::new(simple(Cmd::Brace(seq(vec![probe(5, 0), call(Name::Exit, &[6])]))))), call(Name::Wait, &[]), probe(7, 0)])),
+        Line::Cmd(l1(Cmd::Subshell(vec![AndOr { first: Pipeline { neg: false, cmds: vec![call(Name::Wait, &[1])] }, rest: vec![(false, Pipeline { neg: false, cmds: vec![probe(8, 0)] })] }]))),
+    ]);
     // a shell error inside the EXIT trap action ends the shell with the error status 2
     // (yash-rs left the stale `$?`; repaired by commit 52e95c4)
     for st in [0u64, 5] {
@@ -1559,6 +1745,15 @@ pub fn templates(a: Cmd, b: Cmd, c: Cmd) -> Vec<(&'static str, Vec<List>)> {
         ("case fall", vec![l1(Cmd::Case(Word::Lit(0), vec![(vec![Pat::Lit(0)], l1(a.clone()), Cont::Fall), (vec![Pat::Lit(1)], l1(b.clone()), Cont::Cont), (vec![Pat::Star], l1(c.clone()), Cont::Break)])), end()]),
         ("subshell", vec![seq(vec![Cmd::Subshell(ab()), c.clone()]), end()]),
         ("subshell in loop", vec![l1(for2(seq(vec![Cmd::Subshell(ab()), c.clone()]))), end()]),
+        ("command substitution", vec![seq(vec![Cmd::AssignSub(0, ab()), c.clone()]), end()]),
+        (
+            "command substitution in function in loop",
+            vec![
+                l1(Cmd::FunDef(Name::User(1), Box::new(Cmd::Brace(seq(vec![Cmd::AssignSub(0, l1(a.clone())), Cmd::SubstArg(l1(b.clone())), probe(2, 0)]))))),
+                l1(for2(seq(vec![call(Name::User(1), &[]), c.clone()]))),
+                end(),
+            ],
+        ),
         ("pipeline", vec![vec![ao(Pipeline { neg: false, cmds: vec![a.clone(), b.clone()] }, vec![]), simple(c.clone())], end()]),
         ("group and-or", vec![vec![ao(p1(Cmd::Brace(ab())), vec![(true, p1(c.clone()))])], end()]),
     ]
